@@ -7,8 +7,12 @@ field, ones-complement checksum) and in HSTRP with 0..4 options (independent TLV
 bytes and serialising again gives the same bytes and equal fields.
 Correspondence: the Lean model (Model/Hdap, Hrnp, Hstrp) answers the same build / parse lines.
 """
+import copy
+import enum
 import glob
+import json
 import os
+import random
 import re
 from datetime import date, time
 
@@ -313,6 +317,47 @@ def spec_walk_options(data: bytes):
             return out, i
 
 
+def spec_utf16le(cps) -> bytes:
+    """UTF-16-LE octets of a list of code points, written out by hand (surrogate code points pass as single units)"""
+    out = bytearray()
+    for c in cps:
+        units = [c] if c < 0x10000 else [0xD800 | ((c - 0x10000) >> 10), 0xDC00 | ((c - 0x10000) & 0x3FF)]
+        for u in units:
+            out += bytes([u & 0xFF, u >> 8])
+    return bytes(out)
+
+
+def spec_utf16le_decode(b: bytes):
+    """code points of UTF-16-LE octets (well-formed pairs combined, everything else as single units)"""
+    u = [b[i] | (b[i + 1] << 8) for i in range(0, len(b) - 1, 2)]
+    out, i = [], 0
+    while i < len(u):
+        if 0xD800 <= u[i] < 0xDC00 and i + 1 < len(u) and 0xDC00 <= u[i + 1] < 0xE000:
+            out.append(0x10000 + ((u[i] - 0xD800) << 10) + (u[i + 1] - 0xDC00))
+            i += 2
+        else:
+            out.append(u[i])
+            i += 1
+    return out
+
+
+def spec_hrnp_checksum(octets: bytes) -> int:
+    """ones complement of the ones-complement sum of the big-endian 16-bit words (odd tail padded with 0x00)"""
+    b = octets + (b"\x00" if len(octets) % 2 else b"")
+    s = sum((b[i] << 8) | b[i + 1] for i in range(0, len(b), 2))
+    while s > 0xFFFF:
+        s = (s & 0xFFFF) + (s >> 16)
+    return s ^ 0xFFFF
+
+
+def spec_tlv(options) -> bytes:
+    """the option chain written out by hand: continuation bit on every option but the last"""
+    out = b""
+    for i, (c, d) in enumerate(options):
+        out += bytes([c | (0x80 if i < len(options) - 1 else 0), len(d)]) + d
+    return out
+
+
 SERVICE = {"RRS": 0x11, "LP": 0x08, "TMP": 0x09, "RCP": 0x02}
 LITTLE = {"RCP"}
 
@@ -331,24 +376,224 @@ def pick_int(rng, hi, special=()):
     return rng.randrange(hi + 1)
 
 
+# specification values: what a PDU is built FROM, kept apart from the classes under test so that the
+# expected field tuple (kw_tuple) never reads an attribute of the object that was constructed
+
+
+class IP:
+    """a radio ip as raw numbers"""
+
+    def __init__(self, radio_id, subnet=10):
+        self.radio_id, self.subnet = radio_id, subnet
+
+    def real(self):
+        return L.RadioIP(radio_id=self.radio_id, subnet=self.subnet)
+
+    def s(self):
+        return f"{self.subnet}:{self.radio_id}"
+
+
+class Text:
+    """text as a list of code points, handed to the constructor as str or as UTF-16-LE octets"""
+
+    def __init__(self, cps, as_str):
+        self.cps = list(cps)
+        # a str holding a surrogate code point is not UTF-16 text for the strict codec: such units travel as octets only
+        self.as_str = bool(as_str) and not any(0xD800 <= c <= 0xDFFF for c in self.cps)
+
+    def octets(self) -> bytes:
+        return spec_utf16le(self.cps)
+
+    def real(self):
+        return "".join(chr(c) for c in self.cps) if self.as_str else self.octets()
+
+
+class Gps:
+    """GPS record as raw values: valid, tm (h,m,s)|None, dt (d,m,yy)|None, north, lat4, east, lon4, speed (float), direction"""
+
+    def __init__(self, **d):
+        self.d = d
+
+    def real(self):
+        d = self.d
+        tm, dt = d["tm"], d["dt"]
+        return L.lp.GPSData(
+            data_valid="A" if d["valid"] else "V", greenwich_time=NUL6 if tm is None else time(*tm),
+            greenwich_date=NUL6 if dt is None else date(2000 + dt[2], dt[1], dt[0]), north_south="N" if d["north"] else "S",
+            latitude=d["lat4"] / 10000, east_west="E" if d["east"] else "W", longitude=d["lon4"] / 10000,
+            speed_knots=float(d["speed"]), direction=d["direction"],
+        )
+
+    def s(self):
+        d = self.d
+        tr = lambda t: "N" if t is None else ":".join(str(x) for x in t)  # noqa
+        return " ".join([b01(d["valid"]), tr(d["tm"]), tr(d["dt"]), b01(d["north"]), str(d["lat4"]), b01(d["east"]), str(d["lon4"]),
+                         speed_s(d["speed"]), str(d["direction"])])
+
+
+def realise(v):
+    if isinstance(v, (IP, Text, Gps)):
+        return v.real()
+    if isinstance(v, dict):
+        return dict(v)
+    return v
+
+
+def ev(x):
+    """value of an enum member (or the int itself)"""
+    return x.value if isinstance(x, enum.Enum) else x
+
+
+class Case:
+    """one PDU to build: service, constructor arguments as specification values"""
+
+    CLS = {"RRS": lambda: L.rrs.RadioRegistrationService, "LP": lambda: L.lp.LocationProtocol,
+           "TMP": lambda: L.tmp.TextMessageProtocol, "RCP": lambda: L.rcp.RadioControlProtocol}
+
+    def __init__(self, svc, kw):
+        self.svc, self.kw = svc, kw
+
+    def build(self):
+        return Case.CLS[self.svc]()(**{k: realise(v) for k, v in self.kw.items()})
+
+    @property
+    def text(self):
+        t = self.kw.get("text_data")
+        return t if isinstance(t, Text) else None
+
+    def expected(self) -> str:
+        return kw_tuple(self.svc, self.kw)
+
+
+def kw_tuple(svc, kw) -> str:
+    """the field tuple the constructor arguments denote (same text as pdu_tuple prints for the built object)"""
+    rel = b01(kw.get("is_reliable", False))
+    ipo = lambda k: "N" if kw.get(k) is None else kw[k].s()  # noqa
+    if svc == "RRS":
+        return " ".join(["RRS", rel, str(kw["opcode"].value), ipo("radio_ip"), str(ev(kw.get("result", 0))),
+                         str(kw.get("renew_time_seconds", 1)), str(ev(kw.get("radio_state", 0)))])
+    if svc == "LP":
+        head = ["LP", rel, str(kw["opcode"].value), str(kw["request_id"]), ipo("radio_ip")]
+        if kw["opcode"] == L.lp.LocationProtocolSpecificService.StandardReport:
+            head += [str(ev(kw.get("result", 0))), kw["gpsdata"].s()]
+        return " ".join(head)
+    if svc == "TMP":
+        t = kw.get("text_data", b"")
+        return " ".join(["TMP", rel, b01(kw.get("is_confirmed", False)), b01(kw.get("has_option", False)), str(kw["opcode"].value),
+                         str(kw.get("request_id", 0)), ipo("destination_ip"), ipo("source_ip"), hx(t.octets() if isinstance(t, Text) else t),
+                         "N" if kw.get("option_data") is None else hx(kw["option_data"]),
+                         "N" if kw.get("result_code") is None else str(kw["result_code"].value), hx(kw.get("short_data", b""))])
+    if svc == "RCP":
+        O = L.rcp.RCPOpcode
+        o = kw["opcode"]
+        g = kw.get
+        if o == O.UnknownService:
+            body = [hx(g("raw_opcode", b"")), hx(g("raw_payload", b""))]
+        elif o == O.CallRequest:
+            body = [str(ev(g("call_type", 0))), str(g("target_id"))]
+        elif o in (O.CallReply, O.BroadcastMessageConfigurationReply, O.BroadcastStatusConfigurationReply, O.StatusChangeNotificationReply):
+            body = [str(ev(g("result", 0)))]
+        elif o == O.RepeaterBroadcastTransmitStatus:
+            body = [str(ev(g("repeater_mode"))), str(ev(g("repeater_status"))), str(ev(g("repeater_service_type"))),
+                    str(ev(g("call_type", 0))), str(g("target_id")), str(g("sender_id"))]
+        elif o == O.BroadcastMessageConfigurationRequest:
+            body = [str(g("broadcast_type", 7))]
+        elif o == O.RadioIDAndRadioIPQueryRequest:
+            body = [str(ev(g("target", 0)))]
+        elif o == O.RadioIDAndRadioIPQueryReply:
+            body = [str(ev(g("result", 0))), str(ev(g("target", 0))), hx(g("raw_value", b""))]
+        elif o == O.BroadcastStatusConfigurationRequest:
+            body = [hx(g("broadcast_config_raw", b""))]
+        elif o == O.SendTalkerAliasRequest:
+            body = [str(ev(g("call_type", 0))), str(g("sender_id")), str(g("target_id")), str(ev(g("talker_alias_format"))), hx(g("talker_alias_data", b""))]
+        elif o == O.SendTalkerAliasReply:
+            body = [str(ev(g("result", 0))), str(ev(g("call_type", 0))), str(g("sender_id")), str(g("target_id"))]
+        elif o in (O.ZoneAndChannelOperationRequest, O.ZoneAndChannelOperationReply):
+            body = [hx(g("raw_payload", b""))]
+        elif o == O.StatusChangeNotificationRequest:
+            st = g("status_change_settings", {})
+            body = [",".join(f"{t.value}:{v.value}" for t, v in st.items()) if len(st) else "-"]
+        elif o == O.RadioStatusReport:
+            body = [str(ev(g("status_change_target"))), str(g("status_change_value", 0))]
+        else:
+            raise Unmodelled("opcode without model " + o.name)
+        return " ".join(["RCP", rel, str(o.value)] + body)
+    raise Unmodelled("service " + svc)
+
+
 def gen_ip(rng):
-    return L.RadioIP(radio_id=pick_int(rng, 2**24 - 1), subnet=pick_int(rng, 255, (10,)))
+    return IP(radio_id=pick_int(rng, 2**24 - 1), subnet=pick_int(rng, 255, (10,)))
 
 
 def gen_bytes(rng, n):
     return bytes(rng.randrange(256) for _ in range(n))
 
 
-def gen_text(rng, big=False):
+# ---- special tokens ---------------------------------------------------------------------------
+# code points that a text-handling shortcut treats specially (byte order marks, NUL / whitespace that strip() eats,
+# line ends that get translated, units outside the BMP, unpaired surrogates, characters that change under Unicode
+# normalisation or case mapping, characters whose octets look like frame delimiters)
+TEXT_TOKENS = {
+    "bom-feff": [0xFEFF], "bom-swapped-fffe": [0xFFFE], "two-boms": [0xFEFF, 0xFEFF], "bom-utf8-as-chars": [0xEF, 0xBB, 0xBF],
+    "nul": [0], "nul-nul": [0, 0], "crlf": [13, 10], "lfcr": [10, 13], "cr": [13], "lf": [10], "tab": [9],
+    "space": [0x20], "nbsp": [0xA0], "ideographic-space": [0x3000], "zwsp": [0x200B], "zwj": [0x200D], "rlm": [0x200F], "line-sep": [0x2028],
+    "nonbmp": [0x1F600], "nonbmp-min": [0x10000], "nonbmp-max": [0x10FFFF],
+    "lone-high": [0xD800], "lone-low": [0xDFFF], "swapped-pair": [0xDC00, 0xD800], "high-then-bmp": [0xDBFF, 0x41],
+    "ffff": [0xFFFF], "replacement": [0xFFFD], "d7ff": [0xD7FF], "e000": [0xE000],
+    "combining-acute": [0x65, 0x301], "precomposed-e-acute": [0xE9], "ligature-fi": [0xFB01], "ohm-sign": [0x2126], "sharp-s": [0xDF], "dotted-capital-i": [0x130],
+    "etx-0003": [3], "u0300": [0x300], "u0303": [0x303], "u7e": [0x7E], "u7e00": [0x7E00], "u4232": [0x4232], "u0100": [0x100], "u0001": [1],
+}
+TEXT_TOKEN_NAMES = sorted(TEXT_TOKENS)
+# octet patterns for the opaque byte-string fields (short data, option data, raw payloads, talker alias, HSTRP option data)
+BYTE_TOKENS = {
+    "etx": b"\x03", "etx-etx": b"\x03\x03", "cksum-etx": b"\x33\x03", "nul": b"\x00", "nul-nul": b"\x00\x00", "bom-le": b"\xff\xfe", "bom-be": b"\xfe\xff",
+    "bom-utf8": b"\xef\xbb\xbf", "crlf": b"\r\n", "lf": b"\n", "space": b" ", "tab": b"\t", "hrnp-7e": b"\x7e", "hstrp-2B": b"2B",
+    "ff": b"\xff", "ffff": b"\xff\xff", "80": b"\x80", "lone-surrogate-le": b"\x00\xd8", "ascii": b"A",
+}
+BYTE_TOKEN_NAMES = sorted(BYTE_TOKENS)
+POSITIONS = ("alone", "start", "middle", "end")
+
+
+def place(tok, body, pos):
+    """token at a position of a body (lists of code points or bytes objects)"""
+    if pos == "alone":
+        return tok
+    if pos == "start":
+        return tok + body
+    if pos == "end":
+        return body + tok
+    h = len(body) // 2
+    return body[:h] + tok + body[h:]
+
+
+def gen_cps(rng, big=False):
     n = rng.choice([0, 0, 1, 2, 5, 12, 40, 70]) if not big else rng.choice([500, 2000, 16000])
     alphabet = [
-        lambda: chr(rng.randrange(0x20, 0x7F)),
-        lambda: chr(rng.randrange(0xA0, 0x800)),
-        lambda: chr(rng.choice([0, 0x03, 0xFFFD, 0x4E2D, 0x20AC, 0xD7FF, 0xE000])),
-        lambda: chr(rng.randrange(0x10000, 0x10FFFF)),  # surrogate pair in UTF-16
+        lambda: [rng.randrange(0x20, 0x7F)],
+        lambda: [rng.randrange(0xA0, 0x800)],
+        lambda: [rng.choice([0, 0x03, 0xFFFD, 0x4E2D, 0x20AC, 0xD7FF, 0xE000])],
+        lambda: [rng.randrange(0x10000, 0x110000)],  # surrogate pair in UTF-16
     ]
-    s = "".join(rng.choice(alphabet)() for _ in range(n))
-    return s
+    cps = []
+    for _ in range(n):
+        cps += rng.choice(alphabet)()
+    if not big and rng.random() < 0.3:
+        # special tokens in the random stream as well (the full dictionary is enumerated in token_cases)
+        for _ in range(rng.choice([1, 1, 2])):
+            cps = place(TEXT_TOKENS[rng.choice(TEXT_TOKEN_NAMES)], cps, rng.choice(POSITIONS[1:]))
+    return cps
+
+
+def gen_text(rng, big=False):
+    return Text(gen_cps(rng, big), rng.random() < 0.5)
+
+
+def gen_blob(rng, sizes):
+    """opaque octets of one of the sizes, sometimes with a special token at start / middle / end"""
+    b = gen_bytes(rng, rng.choice(sizes))
+    if rng.random() < 0.15:
+        b = place(BYTE_TOKENS[rng.choice(BYTE_TOKEN_NAMES)], b, rng.choice(POSITIONS[1:]))
+    return b
 
 
 NUL6 = b"\x00" * 6  # the only way to construct a GPSData without time / date (the "absent" wire form)
@@ -356,15 +601,14 @@ NUL6 = b"\x00" * 6  # the only way to construct a GPSData without time / date (t
 
 def gen_gps(rng, speed_mode):
     """speed_mode: 'fit' (absent or d.d), 'over' (format longer than three characters)"""
-    lp = L.lp
-    tm = None if rng.random() < 0.2 else time(hour=rng.choice([0, 23, rng.randrange(24)]), minute=rng.choice([0, 59, rng.randrange(60)]), second=rng.choice([0, 59, rng.randrange(60)]))
+    tm = None if rng.random() < 0.2 else (rng.choice([0, 23, rng.randrange(24)]), rng.choice([0, 59, rng.randrange(60)]), rng.choice([0, 59, rng.randrange(60)]))
     if rng.random() < 0.2:
         dt = None
     else:
         y = rng.choice([2000, 2099, 2024, rng.randrange(2000, 2100)])
         m = rng.randrange(1, 13)
         dmax = [31, 29 if y % 4 == 0 else 28, 31, 30, 31, 30, 31, 31, 30, 31, 30, 31][m - 1]
-        dt = date(year=y, month=m, day=rng.choice([1, dmax, rng.randrange(1, dmax + 1)]))
+        dt = (rng.choice([1, dmax, rng.randrange(1, dmax + 1)]), m, y - 2000)
     lat4 = rng.choice([0, 1, 90000000, 89599999, 9999, 10000, rng.randrange(90000001), rng.randrange(90000001)])
     lon4 = rng.choice([0, 1, 180000000, 179599999, 99999999, 100000000, rng.randrange(180000001), rng.randrange(180000001)])
     if speed_mode == "fit":
@@ -374,20 +618,17 @@ def gen_gps(rng, speed_mode):
         if len(format(sp, "03")) <= 3:
             sp = 10.0
     di = rng.choice([0, 0, 1, 9, 10, 99, 100, 359, rng.randrange(360)])
-    return lp.GPSData(
-        data_valid=rng.choice(["A", "V"]), greenwich_time=NUL6 if tm is None else tm, greenwich_date=NUL6 if dt is None else dt, north_south=rng.choice(["N", "S"]),
-        latitude=lat4 / 10000, east_west=rng.choice(["E", "W"]), longitude=lon4 / 10000, speed_knots=float(sp), direction=di,
-    )
+    return Gps(valid=rng.random() < 0.5, tm=tm, dt=dt, north=rng.random() < 0.5, lat4=lat4, east=rng.random() < 0.5, lon4=lon4, speed=float(sp), direction=di)
 
 
 def gen_rrs(rng):
     R = L.rrs
     op = rng.choice(list(R.RRSTypes))
-    return R.RadioRegistrationService(
+    return Case("RRS", dict(
         opcode=op, is_reliable=rng.random() < 0.5, radio_ip=gen_ip(rng), result=rng.choice(list(R.RRSResult)),
         renew_time_seconds=rng.choice([1, 0xFFFE, 3600, 256, 255, rng.randrange(1, 0xFFFF)]) if (op == R.RRSTypes.RadioRegistrationAnswer or rng.random() < 0.1) else 1,
         radio_state=rng.choice(list(R.RRSRadioState)),
-    )
+    ))
 
 
 def gen_lp(rng, speed_mode="fit"):
@@ -399,7 +640,10 @@ def gen_lp(rng, speed_mode="fit"):
         kw["opcode"] = op if speed_mode != "over" else S.StandardReport
         kw["result"] = rng.choice([c.value for c in lp.LocationProtocolResultCodes])
         kw["gpsdata"] = gen_gps(rng, speed_mode)
-    return lp.LocationProtocol(**kw)
+    return Case("LP", kw)
+
+
+OPTION_SIZES = [0, 0, 1, 3, 4, 16, 255, 256, 300]
 
 
 def gen_tmp(rng, big=False):
@@ -414,17 +658,24 @@ def gen_tmp(rng, big=False):
     if op not in (S.SendGroupMessageAck, S.GroupShortDataAck) or rng.random() < 0.1:
         kw["source_ip"] = gen_ip(rng)
     if op in (S.SendPrivateMessage, S.SendGroupMessage):
-        txt = gen_text(rng, big)
-        kw["text_data"] = txt if rng.random() < 0.5 else txt.encode("utf-16-le")
+        kw["text_data"] = gen_text(rng, big)
     elif op in (S.PrivateShortData, S.GroupShortData):
-        kw["short_data"] = gen_bytes(rng, rng.choice([0, 1, 2, 7, 32, 200]) if not big else rng.choice([1000, 30000]))
+        kw["short_data"] = gen_blob(rng, [0, 1, 2, 7, 32, 200]) if not big else gen_bytes(rng, rng.choice([1000, 30000]))
     else:
         kw["result_code"] = rng.choice(list(T.TMPResultCodes))
     if has_option:
-        kw["option_data"] = gen_bytes(rng, rng.choice([0, 0, 1, 3, 4, 16, 255, 256, 300]))
+        kw["option_data"] = gen_blob(rng, OPTION_SIZES)
     elif rng.random() < 0.1:
         kw["option_data"] = gen_bytes(rng, 3)  # not serialised without the flag
-    return T.TextMessageProtocol(**kw)
+    return Case("TMP", kw)
+
+
+def gen_raw_opcode(rng):
+    known = {m.value for m in L.rcp.RCPOpcode} - {0}
+    while True:
+        ro = gen_bytes(rng, 2) if rng.random() < 0.8 else rng.choice([b"\x00\x00", b"\xff\xff", b"\x41\x09"])
+        if int.from_bytes(ro, "little") not in known:
+            return ro
 
 
 def gen_rcp(rng):
@@ -443,12 +694,7 @@ def gen_rcp(rng):
     ct = lambda: rng.choice(list(C.RCPCallType))  # noqa
     res = lambda: rng.choice(list(C.RCPResult))  # noqa
     if op == O.UnknownService:
-        known = {m.value for m in O} - {0}
-        while True:
-            ro = gen_bytes(rng, 2) if rng.random() < 0.8 else rng.choice([b"\x00\x00", b"\xff\xff", b"\x41\x09"])
-            if int.from_bytes(ro, "little") not in known:
-                break
-        kw.update(raw_opcode=ro, raw_payload=gen_bytes(rng, rng.choice([0, 1, 2, 5, 12, 40, 206, 255, 256, 300, 1000])))
+        kw.update(raw_opcode=gen_raw_opcode(rng), raw_payload=gen_blob(rng, [0, 1, 2, 5, 12, 40, 206, 255, 256, 300, 1000]))
     elif op == O.CallRequest:
         kw.update(call_type=ct(), target_id=id32())
     elif op in (O.CallReply, O.BroadcastMessageConfigurationReply, O.BroadcastStatusConfigurationReply, O.StatusChangeNotificationReply):
@@ -466,14 +712,15 @@ def gen_rcp(rng):
         n = rng.choice([0, 1, 2, 5, 10, 127])
         kw.update(broadcast_config_raw=bytes([n]) + gen_bytes(rng, 2 * n))
     elif op == O.SendTalkerAliasRequest:
+        alias = gen_blob(rng, [0, 1, 6, 31, 250])
         kw.update(call_type=ct(), sender_id=id32(), target_id=id32(), talker_alias_format=rng.choice(list(L.TAF)),
-                  talker_alias_data=gen_bytes(rng, rng.choice([0, 1, 6, 31, 254, 255])))
+                  talker_alias_data=alias if rng.random() < 0.8 else gen_bytes(rng, rng.choice([254, 255])))
     elif op == O.SendTalkerAliasReply:
         kw.update(result=res(), call_type=ct(), sender_id=id32(), target_id=id32())
     elif op == O.ZoneAndChannelOperationRequest:
         kw.update(raw_payload=gen_bytes(rng, 5))
     elif op == O.ZoneAndChannelOperationReply:
-        kw.update(raw_payload=gen_bytes(rng, rng.choice([0, 1, 4, 12, 12, 30, 255, 256, 700])))
+        kw.update(raw_payload=gen_blob(rng, [0, 1, 4, 12, 12, 30, 255, 256, 700]))
     elif op == O.StatusChangeNotificationRequest:
         targets = list(C.StatusChangeNotificationTargets)
         rng.shuffle(targets)
@@ -481,7 +728,55 @@ def gen_rcp(rng):
         kw.update(status_change_settings={t: rng.choice(list(C.StatusChangeNotificationSetting)) for t in targets[:k]})
     elif op == O.RadioStatusReport:
         kw.update(status_change_target=rng.choice(list(C.StatusChangeNotificationTargets)), status_change_value=pick_int(rng, 65535))
-    return C.RadioControlProtocol(**kw)
+    return Case("RCP", kw)
+
+
+def token_cases(rng):
+    """the whole special-token dictionary: every text token at every position of a message text, handed over as str
+    and as octets; every octet token at every position of every opaque byte-string field"""
+    T, C = L.tmp, L.rcp
+    S, O = T.TMPService, C.RCPOpcode
+    out = []
+    base = lambda op: dict(opcode=op, is_reliable=rng.random() < 0.5, is_confirmed=rng.random() < 0.5, request_id=pick_int(rng, 2**32 - 1),  # noqa
+                           destination_ip=gen_ip(rng), source_ip=gen_ip(rng))
+    i = 0
+    for name in TEXT_TOKEN_NAMES:
+        for pos in POSITIONS:
+            body = [ord(c) for c in "Hello"] if i % 3 else gen_cps(rng)[:12] + [0x41]
+            cps = place(TEXT_TOKENS[name], body, pos)
+            for as_str in (True, False):
+                i += 1
+                kw = base(S.SendPrivateMessage if i % 2 else S.SendGroupMessage)
+                kw["text_data"] = Text(cps, as_str)
+                if i % 4 == 0:
+                    kw.update(has_option=True, option_data=gen_bytes(rng, rng.choice([0, 2, 5])))
+                out.append((f"token:text:{name}:{pos}:{'str' if kw['text_data'].as_str else 'octets'}", Case("TMP", kw)))
+    for name in BYTE_TOKEN_NAMES:
+        tok = BYTE_TOKENS[name]
+        for pos in POSITIONS:
+            i += 1
+            blob = place(tok, gen_bytes(rng, rng.choice([2, 6, 9])), pos)
+            # TMP short data (with and without option data behind it) and option data (behind text / short data / result code)
+            kw = base(S.PrivateShortData if i % 2 else S.GroupShortData)
+            kw["short_data"] = blob
+            if i % 3 == 0:
+                kw.update(has_option=True, option_data=gen_bytes(rng, rng.choice([0, 1, 4])))
+            out.append((f"token:short_data:{name}:{pos}", Case("TMP", kw)))
+            kw = base([S.SendPrivateMessage, S.PrivateShortData, S.SendPrivateMessageAck, S.GroupShortDataAck, S.SendGroupMessage][i % 5])
+            kw.update(has_option=True, option_data=blob, text_data=Text(gen_cps(rng)[:8], i % 2 == 0), short_data=gen_bytes(rng, i % 4), result_code=rng.choice(list(T.TMPResultCodes)))
+            out.append((f"token:option_data:{name}:{pos}", Case("TMP", kw)))
+            rel = rng.random() < 0.5
+            out.append((f"token:rcp-unknown-payload:{name}:{pos}", Case("RCP", dict(opcode=O.UnknownService, is_reliable=rel, raw_opcode=gen_raw_opcode(rng), raw_payload=blob))))
+            out.append((f"token:rcp-zone-reply-payload:{name}:{pos}", Case("RCP", dict(opcode=O.ZoneAndChannelOperationReply, is_reliable=rel, raw_payload=blob))))
+            out.append((f"token:rcp-talker-alias:{name}:{pos}", Case("RCP", dict(opcode=O.SendTalkerAliasRequest, is_reliable=rel, call_type=rng.choice(list(C.RCPCallType)), sender_id=pick_int(rng, 2**32 - 1),
+                                                                               target_id=pick_int(rng, 2**32 - 1), talker_alias_format=rng.choice(list(L.TAF)), talker_alias_data=blob))))
+            # fixed-width raw fields: the token inside the width the opcode fixes
+            fix = lambda n: (place(tok, b"\x11" * n, "start" if pos in ("alone", "start") else "end"))[:n] if pos != "end" else (b"\x11" * n + tok)[-n:]  # noqa
+            out.append((f"token:rcp-id-ip-value:{name}:{pos}", Case("RCP", dict(opcode=O.RadioIDAndRadioIPQueryReply, is_reliable=rel, result=rng.choice(list(C.RCPResult)),
+                                                                              target=rng.choice(list(C.RadioIpIdTarget)), raw_value=fix(4)))))
+            out.append((f"token:rcp-zone-request:{name}:{pos}", Case("RCP", dict(opcode=O.ZoneAndChannelOperationRequest, is_reliable=rel, raw_payload=fix(5)))))
+            out.append((f"token:rcp-broadcast-config:{name}:{pos}", Case("RCP", dict(opcode=O.BroadcastStatusConfigurationRequest, is_reliable=rel, broadcast_config_raw=bytes([3]) + fix(6)))))
+    return out
 
 
 def gen_options(rng, k):
@@ -491,7 +786,10 @@ def gen_options(rng, k):
         c = rng.choice(list(H.HSTRPOptionType))
         natural = {H.HSTRPOptionType.RTP: 0, H.HSTRPOptionType.DeviceID: 4}.get(c, 1)
         n = natural if rng.random() < 0.6 else rng.choice([0, 1, 2, 3, 7, 100, 255])
-        o.add_option(c, gen_bytes(rng, n))
+        d = gen_bytes(rng, n)
+        if rng.random() < 0.1:
+            d = place(BYTE_TOKENS[rng.choice(BYTE_TOKEN_NAMES)], d[:200], rng.choice(POSITIONS[1:]))
+        o.add_option(c, d)
     return o
 
 
@@ -518,14 +816,30 @@ def consistent(t, k_options, has_payload) -> bool:
 # the oracle
 
 
-def input_of(p, extra=None):
+def input_of(p, extra=None, case=None):
+    """the replayable description of a PDU: its field tuple (of the build arguments when they are known)"""
     d = {"fields": safe(pdu_tuple, p)}
+    if case is not None:
+        exp = safe(case.expected)
+        if not exp.startswith("ERR"):
+            d["fields"] = exp
+        if case.text is not None:
+            d["text_as"] = "str" if case.text.as_str else "octets"
     d["service"] = d["fields"].split(" ")[0]
     if isinstance(p, L.lp.LocationProtocol) and p.specific_service == L.lp.LocationProtocolSpecificService.StandardReport:
         d["speed"] = float(p.gpsdata.speed_knots)
     if extra:
         d.update(extra)
     return d
+
+
+def check_built(ctx, p, inp):
+    """the constructed object holds the values it was built from (inp["fields"] = tuple of the build arguments)"""
+    got = safe(pdu_tuple, p)
+    if got != inp["fields"]:
+        ctx.fail("built-fields", inp, "attributes of the constructed PDU differ from the values it was built from", expected=inp["fields"], actual=got)
+        return False
+    return True
 
 
 def check_frame(ctx, p, inp):
@@ -704,20 +1018,674 @@ def hstrp_fields(s):
                      "NONE" if s.payload is None else relevant_tuple(s.payload)])
 
 
-def one_pdu(ctx, rng, p, kind, pairs, sample=False, nest=True):
-    inp = input_of(p)
-    desc = (kind, inp["fields"])
-    ctx.count("pdu:" + kind)
+def one_pdu(ctx, rng, p, kind, pairs, sample=False, nest=True, case=None):
+    inp = input_of(p, case=case)
+    desc = (kind, inp["fields"], inp.get("text_as"))
+    ctx.count("pdu:" + kind.split(":")[0])
+    if case is not None:
+        check_built(ctx, p, inp)
+        if case.text is not None:
+            ctx.count("text:as-" + inp["text_as"])
     b = check_frame(ctx, p, inp)
     if b is not None:
         check_roundtrip(ctx, p, b, inp)
         if pairs is not None and not inp["fields"].startswith("ERR"):
             pairs.append(("hdap.mk " + inp["fields"], hx(b) + " " + str(call(len, p))))
             pairs.append(("hdap.parse " + hx(b), impl_hdap_parse(b)))
+            if case is not None and case.text is not None:
+                pairs.append(text_pair(case.text))
     if nest:
         check_hrnp(ctx, rng, p, b, inp, pairs)
         check_hstrp(ctx, rng, p, b, inp, pairs)
     ctx.case(desc, nontrivial=True, sample={"kind": kind, "fields": inp["fields"], "bytes": None if b is None else b.hex()[:120]} if sample else None)
+    return b
+
+
+def text_pair(t):
+    """model line for the text argument of the TMP constructor and what the constructor stored"""
+    arg = t.real()
+
+    def go():
+        q = L.tmp.TextMessageProtocol(opcode=L.tmp.TMPService.SendPrivateMessage, text_data=arg)
+        return hx(q.text_data)
+
+    if t.as_str:
+        return ("tmp.text s " + (",".join(str(c) for c in t.cps) if t.cps else "-"), safe(go))
+    return ("tmp.text b " + hx(t.octets()), safe(go))
+
+
+def build_case(ctx, c):
+    """construct the PDU of a case; a constructor that raises on in-range values is a failure"""
+    p = call(c.build)
+    if isinstance(p, Exc):
+        inp = {"service": c.svc, "fields": safe(c.expected)}
+        if c.text is not None:
+            inp["text_as"] = "str" if c.text.as_str else "octets"
+        ctx.fail("construct-raises", inp, f"constructing an in-range {c.svc} PDU raised {p}", actual=repr(p))
+        return None
+    return p
+
+
+# ------------------------------------------------------------------------------------------------
+# object histories: ONE object is observed (len, as_bytes, repr, nested in a kept HRNP / HSTRP wrapper), changed
+# (attribute assignment, in-place change of a sub-object, opcode switch, parse / deepcopy and carry on) and observed
+# again; after every step the property is evaluated on the object as it is now and the bytes are compared with a PDU
+# built afresh from the same field values and with the model's answer for those values.
+# Every step is a json-able descriptor applied by apply_step (generation and replay share the code path).
+
+
+def enum_registry():
+    R, P, T, C, H, S = L.rrs, L.lp, L.tmp, L.rcp, L.hrnp, L.hstrp
+    cl = [R.RRSTypes, R.RRSResult, R.RRSRadioState, P.LocationProtocolSpecificService, P.LocationProtocolResultCodes, T.TMPService, T.TMPResultCodes,
+          C.RCPOpcode, C.RCPCallType, C.RCPResult, C.RepeaterMode, C.RepeaterStatus, C.RepeaterServiceType, C.RadioIpIdTarget,
+          C.StatusChangeNotificationTargets, C.StatusChangeNotificationSetting, L.TAF, H.HRNPOpcodes, S.HSTRPOptionType]
+    return {c.__name__: c for c in cl}
+
+
+def member(cls, value):
+    """the member with this value, looked up in the member list (not through _missing_)"""
+    for m in cls:
+        if m.value == value:
+            return m
+    raise ValueError(f"{cls.__name__} has no member {value}")
+
+
+def enc(v):
+    """json-able form of a value a step assigns"""
+    if v is None or isinstance(v, (bool, int)):
+        return v
+    if isinstance(v, (bytes, bytearray)):
+        return {"hex": bytes(v).hex()}
+    if isinstance(v, enum.Enum):
+        return {"enum": type(v).__name__, "value": v.value}
+    if isinstance(v, IP):
+        return {"ip": [v.subnet, v.radio_id]}
+    if isinstance(v, Gps):
+        return {"gps": {k: (list(x) if isinstance(x, tuple) else x) for k, x in v.d.items()}}
+    if isinstance(v, dict):
+        return {"settings": [[t.value, x.value] for t, x in v.items()]}
+    if isinstance(v, float):
+        return {"float": repr(v)}
+    if isinstance(v, tuple):
+        return {"tuple": list(v)}
+    if isinstance(v, str):
+        return {"chr": v}
+    raise TypeError("cannot encode " + repr(v))
+
+
+def dec(e):
+    """the real value (objects of the code under test are created here)"""
+    if not isinstance(e, dict):
+        return e
+    if "hex" in e:
+        return bytes.fromhex(e["hex"])
+    if "enum" in e:
+        return member(enum_registry()[e["enum"]], e["value"])
+    if "ip" in e:
+        return L.RadioIP(subnet=e["ip"][0], radio_id=e["ip"][1])
+    if "gps" in e:
+        d = dict(e["gps"])
+        for k in ("tm", "dt"):
+            d[k] = None if d[k] is None else tuple(d[k])
+        return Gps(**d).real()
+    if "settings" in e:
+        C = L.rcp
+        return {member(C.StatusChangeNotificationTargets, t): member(C.StatusChangeNotificationSetting, x) for t, x in e["settings"]}
+    if "float" in e:
+        return float(e["float"])
+    if "time" in e:
+        return None if e["time"] is None else time(*e["time"])
+    if "date" in e:
+        return None if e["date"] is None else date(2000 + e["date"][2], e["date"][1], e["date"][0])
+    if "chr" in e:
+        return e["chr"]
+    raise TypeError("cannot decode " + repr(e))
+
+
+class State:
+    """the objects of one history: the PDU, the kept HRNP and HSTRP wrappers around it"""
+
+    def __init__(self, p):
+        self.p, self.h, self.s = p, None, None
+        self.own_gps = isinstance(p, L.lp.LocationProtocol) and p.specific_service == L.lp.LocationProtocolSpecificService.StandardReport
+        self.own_dict = isinstance(p, L.rcp.RadioControlProtocol) and p.opcode == L.rcp.RCPOpcode.StatusChangeNotificationRequest
+
+    def repoint(self):
+        if self.h is not None:
+            self.h.data = self.p
+        if self.s is not None and self.s.payload is not None:
+            self.s.payload = self.p
+
+    def reset_ownership(self, copied=False):
+        p = self.p
+        self.own_gps = copied or (isinstance(p, L.lp.LocationProtocol) and p.specific_service == L.lp.LocationProtocolSpecificService.StandardReport)
+        self.own_dict = copied or (isinstance(p, L.rcp.RadioControlProtocol) and p.opcode == L.rcp.RCPOpcode.StatusChangeNotificationRequest)
+
+
+def hstrp_make_consistent(s):
+    """keep the packet type in line with the option list (the property's 'consistent' packets)"""
+    k = len(s.options.options) if s.options is not None else 0
+    t = s.pkt_type
+    if k > 0:
+        t.have_options, t.is_heartbeat = True, False
+    elif t.have_options and not t.is_heartbeat and s.payload is not None:
+        t.have_options = False
+
+
+def apply_step(st, step):
+    """perform one step on the state's objects; observations are called and their results dropped (verify_state looks afterwards)"""
+    op = step["op"]
+    p = st.p
+    if op == "len":
+        call(len, p)
+    elif op == "bytes":
+        call(p.as_bytes)
+    elif op == "repr":
+        call(repr, p)
+    elif op == "accessors":
+        call(p.get_payload), call(p.get_opcode), call(p.get_service_type), call(p.get_endianness)
+    elif op == "set":
+        v = dec(step["value"])
+        setattr(p, step["attr"], v)
+        if step["attr"] == "gpsdata":
+            st.own_gps = True
+        if step["attr"] == "status_change_settings":
+            st.own_dict = True
+    elif op == "ip-set":
+        setattr(getattr(p, step["which"]), step["attr"], step["value"])
+    elif op == "gps-set":
+        setattr(p.gpsdata, step["attr"], dec(step["value"]))
+    elif op == "dict-set":
+        C = L.rcp
+        p.status_change_settings[member(C.StatusChangeNotificationTargets, step["target"])] = member(C.StatusChangeNotificationSetting, step["setting"])
+    elif op == "dict-del":
+        del p.status_change_settings[member(L.rcp.StatusChangeNotificationTargets, step["target"])]
+    elif op == "reparse":
+        st.p = L.hdap.HDAP.from_bytes(p.as_bytes())
+        st.reset_ownership()
+        st.repoint()
+    elif op == "deepcopy":
+        what = step["what"]
+        if what == "hrnp" and st.h is not None and st.h.data is p:
+            st.h = copy.deepcopy(st.h)
+            st.p = st.h.data
+        elif what == "hstrp" and st.s is not None and st.s.payload is p:
+            st.s = copy.deepcopy(st.s)
+            st.p = st.s.payload
+        else:
+            st.p = copy.deepcopy(p)
+        st.reset_ownership(copied=True)
+        st.repoint()
+    elif op == "hrnp-wrap":
+        kw = dict(step["kw"])
+        if "version" in kw:
+            kw["version"] = bytes([kw["version"]])
+        st.h = L.hrnp.HRNP(opcode=L.hrnp.HRNPOpcodes.DATA, data=p, **kw)
+    elif op == "hrnp-bytes":
+        call(st.h.as_bytes)
+    elif op == "hrnp-len":
+        call(len, st.h)
+    elif op == "hrnp-set":
+        setattr(st.h, step["attr"], dec(step["value"]))
+    elif op == "hrnp-reparse":
+        st.h = L.hrnp.HRNP.from_bytes(st.h.as_bytes())
+        st.p = st.h.data
+        st.reset_ownership()
+        st.repoint()
+    elif op == "hstrp-wrap":
+        H = L.hstrp
+        o = None
+        if step["options"] is not None:
+            o = H.HSTRPOptions()
+            for c, d in step["options"]:
+                o.add_option(member(H.HSTRPOptionType, c), bytes.fromhex(d))
+        st.s = H.HSTRP(pkt_type=H.HSTRPPacketType.from_bytes(bytes([step["type"]])), sn=step["sn"], options=o, payload=p, version=step["version"])
+        if o is not None:
+            hstrp_make_consistent(st.s)
+    elif op == "hstrp-bytes":
+        call(st.s.as_bytes)
+    elif op == "opts-observe":
+        if st.s.options is not None:
+            call(len, st.s.options), call(st.s.options.as_bytes), call(repr, st.s.options)
+    elif op == "opts-add":
+        H = L.hstrp
+        if st.s.options is None:
+            st.s.options = H.HSTRPOptions()
+        st.s.options.add_option(member(H.HSTRPOptionType, step["cmd"]), bytes.fromhex(step["data"]))
+        hstrp_make_consistent(st.s)
+    elif op == "opts-pop":
+        st.s.options.options.pop(step["index"])
+        hstrp_make_consistent(st.s)
+    elif op == "opts-replace":
+        st.s.options.options[step["index"]] = (member(L.hstrp.HSTRPOptionType, step["cmd"]), bytes.fromhex(step["data"]))
+    elif op == "hstrp-set":
+        a = step["attr"]
+        if a == "payload":
+            st.s.payload = p if step["value"] else None
+        elif a in ("sn", "version"):
+            setattr(st.s, a, step["value"])
+        else:
+            setattr(st.s.pkt_type, a, step["value"])  # one flag of the packet type object, in place
+        hstrp_make_consistent(st.s)
+    elif op == "hstrp-reparse":
+        st.s = L.hstrp.HSTRP.from_bytes(st.s.as_bytes())
+        if st.s.payload is not None:
+            st.p = st.s.payload
+            st.reset_ownership()
+            if st.h is not None:
+                st.h.data = st.p
+    else:
+        raise ValueError("unknown step " + op)
+
+
+# ---- choosing the next step --------------------------------------------------------------------
+
+
+def other_bytes(rng, cur: bytes, sizes, same_p=0.3, fixed=None):
+    """another octet string: same length with other content, or one of the other sizes; sometimes a special token inside"""
+    if fixed is not None:
+        n = fixed
+    elif rng.random() < same_p:
+        n = len(cur)
+    else:
+        n = rng.choice([x for x in sizes if x != len(cur)] or sizes)
+    b = gen_bytes(rng, n)
+    if fixed is None and rng.random() < 0.2:
+        b = place(BYTE_TOKENS[rng.choice(BYTE_TOKEN_NAMES)], b, rng.choice(POSITIONS[1:]))
+    if b == cur and n:
+        b = bytes([b[0] ^ 1]) + b[1:]
+    return b
+
+
+def setv(attr, v):
+    return {"op": "set", "attr": attr, "value": enc(v)}
+
+
+def ip_steps(rng, which):
+    return [setv(which, gen_ip(rng)), {"op": "ip-set", "which": which, "attr": "radio_id", "value": pick_int(rng, 2**24 - 1)},
+            {"op": "ip-set", "which": which, "attr": "subnet", "value": pick_int(rng, 255, (10,))}]
+
+
+def mutation(rng, st):
+    """a step that changes a field of the PDU to another in-range value (of the same or of another size)"""
+    p = st.p
+    c = [setv("is_reliable", not p.is_reliable)]
+    if isinstance(p, L.rrs.RadioRegistrationService):
+        R = L.rrs
+        c += [setv("opcode", rng.choice(list(R.RRSTypes)))] * 3 + ip_steps(rng, "radio_ip")
+        c += [setv("result", rng.choice(list(R.RRSResult))), setv("renew_time_seconds", rng.choice([1, 0xFFFE, 255, 256, rng.randrange(1, 0xFFFF)])),
+              setv("radio_state", rng.choice(list(R.RRSRadioState)))]
+    elif isinstance(p, L.lp.LocationProtocol):
+        P = L.lp
+        S = P.LocationProtocolSpecificService
+        c += [setv("request_id", pick_int(rng, 2**32 - 1))] + ip_steps(rng, "radio_ip")
+        c += [setv("gpsdata", gen_gps(rng, "fit"))] * 2
+        if st.own_gps:
+            c += [setv("specific_service", S.StandardRequest if p.specific_service == S.StandardReport else S.StandardReport)] * 3
+            g = [("direction", rng.choice([0, 1, 9, 10, 99, 100, 359])), ("data_valid", enc(rng.choice(["A", "V"]))), ("north_south", enc(rng.choice(["N", "S"]))),
+                 ("east_west", enc(rng.choice(["E", "W"]))), ("latitude", enc(rng.randrange(90000001) / 10000)), ("longitude", enc(rng.randrange(180000001) / 10000)),
+                 ("speed_knots", enc(rng.choice([0.0, 0.1, 9.9, 5.0, rng.randrange(1, 100) / 10]))),
+                 ("greenwich_time", {"time": rng.choice([None, [rng.randrange(24), rng.randrange(60), rng.randrange(60)]])}),
+                 ("greenwich_date", {"date": rng.choice([None, [rng.randrange(1, 29), rng.randrange(1, 13), rng.randrange(100)]])})]
+            a, v = rng.choice(g)
+            c += [{"op": "gps-set", "attr": a, "value": v}] * 3
+        if p.specific_service == S.StandardReport:
+            c += [setv("result", rng.choice(list(P.LocationProtocolResultCodes)))]
+    elif isinstance(p, L.tmp.TextMessageProtocol):
+        T = L.tmp
+        S = T.TMPService
+        msg, short = p.opcode in (S.SendPrivateMessage, S.SendGroupMessage), p.opcode in (S.PrivateShortData, S.GroupShortData)
+        ack = not msg and not short
+        c += [setv("is_confirmed", not p.is_confirmed), setv("request_id", pick_int(rng, 2**32 - 1))] + ip_steps(rng, "destination_ip")
+        if p.source_ip is not None:
+            c += ip_steps(rng, "source_ip")
+        else:
+            c += [setv("source_ip", gen_ip(rng))]
+        newopt = setv("option_data", other_bytes(rng, p.option_data or b"", OPTION_SIZES))
+        if p.has_option:
+            c += [setv("has_option", False), newopt, newopt, newopt]
+        else:
+            c += [newopt if p.option_data is None else setv("has_option", True)] * 3
+        newtext = setv("text_data", Text(gen_cps(rng), False).octets() if rng.random() < 0.7 else b"")
+        if len(dec(newtext["value"])) == len(p.text_data):
+            newtext = setv("text_data", p.text_data + spec_utf16le(TEXT_TOKENS[rng.choice(TEXT_TOKEN_NAMES)]))
+        if rng.random() < 0.25 and len(p.text_data) >= 2:  # same size, other content
+            newtext = setv("text_data", bytes([p.text_data[0] ^ 0x01]) + p.text_data[1:])
+        newshort = setv("short_data", other_bytes(rng, p.short_data, [0, 1, 2, 7, 32, 200]))
+        c += [newtext] * (5 if msg else 1) + [newshort] * (5 if short else 1)
+        c += [setv("result_code", rng.choice(list(T.TMPResultCodes)))] * (3 if ack else 1)
+        ops = [o for o in (S.SendPrivateMessage, S.SendPrivateMessageAck, S.SendGroupMessage, S.SendGroupMessageAck, S.PrivateShortData,
+                           S.PrivateShortDataAck, S.GroupShortData, S.GroupShortDataAck)
+               if o != p.opcode and (p.source_ip is not None or o in (S.SendGroupMessageAck, S.GroupShortDataAck))
+               and (p.result_code is not None or o in (S.SendPrivateMessage, S.SendGroupMessage, S.PrivateShortData, S.GroupShortData))]
+        if ops:
+            c += [setv("opcode", rng.choice(ops))] * 3
+    elif isinstance(p, L.rcp.RadioControlProtocol):
+        C = L.rcp
+        O = C.RCPOpcode
+        o = p.opcode
+        id32 = lambda: pick_int(rng, 2**32 - 1)  # noqa
+        f = []
+        replies = (O.CallReply, O.BroadcastMessageConfigurationReply, O.BroadcastStatusConfigurationReply, O.StatusChangeNotificationReply)
+        if o == O.UnknownService:
+            f = [setv("raw_payload", other_bytes(rng, p.raw_payload, [0, 1, 2, 5, 40, 255, 256, 300]))] * 3 + [setv("raw_opcode", gen_raw_opcode(rng))]
+        elif o == O.CallRequest:
+            f = [setv("call_type", rng.choice(list(C.RCPCallType))), setv("target_id", id32())]
+        elif o in replies:
+            f = [setv("result", rng.choice(list(C.RCPResult)))]
+        elif o == O.RepeaterBroadcastTransmitStatus:
+            f = [setv("repeater_mode", rng.choice(list(C.RepeaterMode))), setv("repeater_status", rng.choice(list(C.RepeaterStatus))),
+                 setv("repeater_service_type", rng.choice(list(C.RepeaterServiceType))), setv("call_type", rng.choice(list(C.RCPCallType))),
+                 setv("target_id", id32()), setv("sender_id", id32())]
+        elif o == O.BroadcastMessageConfigurationRequest:
+            f = [setv("broadcast_type", pick_int(rng, 255, (7,)))]
+        elif o == O.RadioIDAndRadioIPQueryRequest:
+            f = [setv("radio_ip_id_target", rng.choice(list(C.RadioIpIdTarget)))]
+        elif o == O.RadioIDAndRadioIPQueryReply:
+            f = [setv("result", rng.choice(list(C.RCPResult))), setv("radio_ip_id_target", rng.choice(list(C.RadioIpIdTarget))),
+                 setv("raw_value", other_bytes(rng, p.raw_value, [4], fixed=4))]
+        elif o == O.BroadcastStatusConfigurationRequest:
+            n = rng.choice([0, 1, 2, 5, 10, 127])
+            f = [setv("broadcast_config_raw", bytes([n]) + gen_bytes(rng, 2 * n))]
+        elif o == O.SendTalkerAliasRequest:
+            f = [setv("talker_alias_data", other_bytes(rng, p.talker_alias_data, [0, 1, 6, 31, 250]))] * 4
+            f += [setv("call_type", rng.choice(list(C.RCPCallType))), setv("sender_id", id32()), setv("target_id", id32()),
+                  setv("talker_alias_data_format", rng.choice(list(L.TAF)))]
+        elif o == O.SendTalkerAliasReply:
+            f = [setv("result", rng.choice(list(C.RCPResult))), setv("call_type", rng.choice(list(C.RCPCallType))), setv("sender_id", id32()), setv("target_id", id32())]
+        elif o == O.ZoneAndChannelOperationRequest:
+            f = [setv("raw_payload", gen_bytes(rng, 5))]
+        elif o == O.ZoneAndChannelOperationReply:
+            f = [setv("raw_payload", other_bytes(rng, p.raw_payload, [0, 1, 4, 12, 30, 255, 256, 700]))]
+        elif o == O.StatusChangeNotificationRequest:
+            targets = list(C.StatusChangeNotificationTargets)
+            settings = list(C.StatusChangeNotificationSetting)
+            repl = setv("status_change_settings", {t: rng.choice(settings) for t in rng.sample(targets, rng.choice([0, 1, 2, 5, len(targets)]))})
+            if st.own_dict:
+                f = [{"op": "dict-set", "target": rng.choice(targets).value, "setting": rng.choice(settings).value}] * 4 + [repl]
+                if len(p.status_change_settings):
+                    f += [{"op": "dict-del", "target": rng.choice(list(p.status_change_settings)).value}] * 2
+            else:
+                f = [repl]
+        elif o == O.RadioStatusReport:
+            f = [setv("status_change_target", rng.choice(list(C.StatusChangeNotificationTargets))), setv("status_change_value", pick_int(rng, 65535))]
+        c += f * 2
+        # switch the opcode to another one whose fields the object already holds
+        ints = lambda *xs: all(isinstance(x, int) and not isinstance(x, bool) for x in xs)  # noqa
+        ok = list(replies) + [O.BroadcastMessageConfigurationRequest, O.RadioIDAndRadioIPQueryRequest, O.RadioStatusReport, O.ZoneAndChannelOperationReply]
+        if len(p.raw_opcode) == 2 and int.from_bytes(p.raw_opcode, "little") not in ({m.value for m in O} - {0}):
+            ok.append(O.UnknownService)
+        if ints(p.target_id):
+            ok.append(O.CallRequest)
+        if ints(p.target_id, p.sender_id):
+            ok.append(O.SendTalkerAliasReply)
+            if p.talker_alias_data_format is not None and len(p.talker_alias_data) < 256:
+                ok.append(O.SendTalkerAliasRequest)
+            if None not in (p.repeater_mode, p.repeater_status, p.repeater_service_type):
+                ok.append(O.RepeaterBroadcastTransmitStatus)
+        if len(p.raw_value) == 4:
+            ok.append(O.RadioIDAndRadioIPQueryReply)
+        if len(p.raw_payload) == 5:
+            ok.append(O.ZoneAndChannelOperationRequest)
+        if len(p.broadcast_config_raw) >= 1 and len(p.broadcast_config_raw) == 1 + 2 * p.broadcast_config_raw[0]:
+            ok.append(O.BroadcastStatusConfigurationRequest)
+        if st.own_dict:
+            ok.append(O.StatusChangeNotificationRequest)
+        ok = [x for x in ok if x != o]
+        c += [setv("opcode", rng.choice(ok))] * 2
+    return rng.choice(c)
+
+
+def hrnp_wrap_step(rng):
+    kw = dict(source=pick_int(rng, 255, (0x20,)), destination=pick_int(rng, 255, (0x10,)), block_number=pick_int(rng, 255), packet_number=pick_int(rng, 65535))
+    if rng.random() < 0.3:
+        kw["version"] = rng.choice([0, 1, 2, 3, 4])
+    return {"op": "hrnp-wrap", "kw": kw}
+
+
+def hstrp_wrap_step(rng):
+    H = L.hstrp
+    k = rng.choice([0, 0, 1, 2, 3])
+    opts = gen_options(rng, k)
+    t = gen_pkt_type(rng, k, True)
+    return {"op": "hstrp-wrap", "type": t.as_bytes()[0], "sn": pick_int(rng, 65535), "version": rng.choice([0, 0, 0, 1, 255]),
+            "options": None if (k == 0 and rng.random() < 0.5) else [[c.value, d.hex()] for c, d in opts.options]}
+
+
+def next_step(rng, st, force=None):
+    """force: 'observe' | 'mutate' | None"""
+    r = rng.random()
+    observe = [{"op": "len"}] * 3 + [{"op": "bytes"}] * 2 + [{"op": "repr"}, {"op": "accessors"}]
+    if st.h is None:
+        observe += [hrnp_wrap_step(rng)] * 4
+    else:
+        observe += [{"op": "hrnp-bytes"}] * 2 + [{"op": "hrnp-len"}] * 2 + [hrnp_wrap_step(rng)]
+    if st.s is None:
+        observe += [hstrp_wrap_step(rng)] * 2
+    else:
+        observe += [{"op": "hstrp-bytes"}, {"op": "opts-observe"}]
+    if force == "observe" or (force is None and r < 0.35):
+        return rng.choice(observe)
+    if force == "mutate" or r < 0.7:
+        return mutation(rng, st)
+    # changes of the wrappers, parse / copy and carry on
+    c = [{"op": "reparse"}] * 2 + [{"op": "deepcopy", "what": rng.choice(["pdu", "hrnp", "hstrp"])}]
+    if st.h is not None:
+        H = L.hrnp
+        hb = call(st.p.as_bytes)
+        pn = pick_int(rng, 65535)
+        if not isinstance(hb, Exc) and rng.random() < 0.3 and st.h.opcode == H.HRNPOpcodes.DATA:
+            v = st.h.version[0] if len(st.h.version) == 1 else 4
+            pn = carry_packet_number(rng, {"version": v, "block_number": st.h.block_number, "source": st.h.source, "destination": st.h.destination}, hb)
+        c += [{"op": "hrnp-set", "attr": "packet_number", "value": pn}] * 3
+        c += [{"op": "hrnp-set", "attr": a, "value": pick_int(rng, 255)} for a in ("source", "destination", "block_number")]
+        c += [{"op": "hrnp-set", "attr": "opcode", "value": enc(rng.choice(list(H.HRNPOpcodes)))}, {"op": "hrnp-set", "attr": "opcode", "value": enc(H.HRNPOpcodes.DATA)},
+              {"op": "hrnp-set", "attr": "version", "value": enc(bytes([rng.choice([0, 1, 2, 3, 4])]))}]
+        if st.h.opcode == H.HRNPOpcodes.DATA:
+            c += [{"op": "hrnp-reparse"}] * 2
+    if st.s is not None:
+        H = L.hstrp
+        cmd = rng.choice(list(H.HSTRPOptionType)).value
+        data = other_bytes(rng, b"", [0, 1, 4, 7, 100, 255]).hex()
+        c += [{"op": "opts-add", "cmd": cmd, "data": data}] * 4
+        k = len(st.s.options.options) if st.s.options is not None else 0
+        if k:
+            i = rng.randrange(k)
+            c += [{"op": "opts-pop", "index": i}, {"op": "opts-replace", "index": i, "cmd": cmd, "data": data}] * 2
+        c += [{"op": "hstrp-set", "attr": "sn", "value": pick_int(rng, 65535)}, {"op": "hstrp-set", "attr": "version", "value": rng.choice([0, 1, 255])},
+              {"op": "hstrp-set", "attr": rng.choice(["is_reject", "is_close", "is_connect", "is_ack", "have_options", "is_heartbeat"]), "value": rng.random() < 0.5},
+              {"op": "hstrp-set", "attr": "payload", "value": st.s.payload is None}]
+        if consistent(st.s.pkt_type, k, st.s.payload is not None):
+            c += [{"op": "hstrp-reparse"}] * 2
+    return rng.choice(c)
+
+
+# ---- looking at the objects after a step ------------------------------------------------------
+
+
+def verify_state(ctx, st, inp, pairs, deep):
+    """the property on the objects as they are now; bytes against a PDU built afresh from the same field values, against
+    the independent frame computations and (pairs) against the model"""
+    p = st.p
+    tup = safe(pdu_tuple, p)
+    inp = dict(inp, fields=tup, service=tup.split(" ")[0])
+    if tup.startswith("ERR"):
+        ctx.fail("history-fields", inp, "the object's attributes are no longer in-range field values: " + tup, actual=tup)
+        return False
+    n0 = len(ctx.failures)
+    b = check_frame(ctx, p, inp)
+    if b is None:
+        return False
+    fresh = call(build_from_tuple, tup)
+    fb = call(fresh.as_bytes) if not isinstance(fresh, Exc) else fresh
+    if isinstance(fb, Exc):
+        ctx.fail("history-fresh-raises", inp, f"a PDU built afresh from the object's field values cannot be serialised: {fb}", actual=repr(fb))
+        return False
+    if b != fb:
+        ctx.fail("history-bytes", inp, "the object serialises differently from a PDU built afresh from the same field values", expected=fb.hex(), actual=b.hex())
+    fl = call(len, fresh)
+    if fl != len(fb):
+        ctx.fail("len-mismatch", inp, "len() of a freshly built PDU differs from the number of bytes it produces", expected=len(fb), actual=repr(fl))
+    b2 = call(p.as_bytes)
+    if b2 != b:
+        ctx.fail("history-bytes", inp, "two consecutive as_bytes() of the same object differ", expected=b.hex(), actual=repr(b2) if isinstance(b2, Exc) else b2.hex())
+    if deep:
+        check_roundtrip(ctx, p, b, inp)
+    if pairs is not None:
+        pairs.append(("hdap.mk " + tup, hx(b) + " " + str(call(len, p))))
+    h = st.h
+    if h is not None:
+        H = L.hrnp
+        hi = dict(inp, nesting="HRNP")
+        hb = call(h.as_bytes)
+        hl = call(len, h)
+        if isinstance(hb, Exc):
+            ctx.fail("hrnp-serialise-raises", hi, f"HRNP.as_bytes raised {hb}", actual=repr(hb))
+        else:
+            inner = fb if h.opcode == H.HRNPOpcodes.DATA else b""
+            head = h.header + h.version + bytes([h.block_number, h.opcode.value, h.source, h.destination]) + h.packet_number.to_bytes(2, "big") + (12 + len(inner)).to_bytes(2, "big")
+            want = head + spec_hrnp_checksum(head + inner).to_bytes(2, "big") + inner
+            lf = int.from_bytes(hb[8:10], "big")
+            if not (lf == len(hb) == 12 + len(inner)) or hl != len(hb):
+                ctx.fail("hrnp-length", hi, "HRNP length field / len() / actual length / 12 + inner differ", expected=12 + len(inner), actual=[lf, len(hb), repr(hl)])
+            elif not spec_ones_complement_ok(hb):
+                ctx.fail("hrnp-checksum", hi, "ones-complement sum over the HRNP packet is not 0xFFFF", expected="ffff", actual=hb[10:12].hex())
+            elif hb != want:
+                ctx.fail("history-hrnp-bytes", hi, "the kept HRNP wrapper serialises differently from the packet written out by hand for its current fields", expected=want.hex(), actual=hb.hex())
+            if deep and len(hb) >= 12:
+                h2 = call(H.HRNP.from_bytes, hb)
+                if isinstance(h2, Exc):
+                    ctx.fail("parse-raises", hi, f"HRNP.from_bytes of the serialisation raised {h2}", actual=repr(h2))
+                else:
+                    hb2 = call(h2.as_bytes)
+                    if not h2.checksum_correct:
+                        ctx.fail("hrnp-checksum-verify", hi, "HRNP.from_bytes does not verify the checksum of a serialised packet", expected=True, actual=False)
+                    if isinstance(hb2, Exc) or hb2 != hb:
+                        ctx.fail("roundtrip-bytes", hi, "HRNP parse then serialise does not reproduce the bytes", expected=hb.hex(), actual=repr(hb2) if isinstance(hb2, Exc) else hb2.hex())
+                    if h.opcode == H.HRNPOpcodes.DATA:
+                        f1 = safe(lambda: hrnp_fields(h)), safe(lambda: hrnp_fields(h2))
+                        if f1[0] != f1[1]:
+                            ctx.fail("roundtrip-fields", hi, "HRNP parsed fields differ", expected=f1[0], actual=f1[1])
+            if pairs is not None:
+                pairs.append((f"hrnp.mk {hx(h.header)} {hx(h.version)} {h.block_number} {h.opcode.value} {h.source} {h.destination} {h.packet_number} {tup}", hx(hb) + " " + str(hl)))
+    s = st.s
+    if s is not None:
+        si = dict(inp, nesting="HSTRP")
+        sb = call(s.as_bytes)
+        if isinstance(sb, Exc):
+            ctx.fail("hstrp-serialise-raises", si, f"HSTRP.as_bytes raised {sb}", actual=repr(sb))
+        else:
+            t = s.pkt_type
+            tb = sum(bit << i for i, bit in enumerate([t.is_ack, t.is_heartbeat, t.is_connect, t.is_close, t.is_reject, t.have_options]))
+            ol = [] if s.options is None else [(c.value, bytes(d)) for c, d in s.options.options]
+            tlv = spec_tlv(ol)
+            want = b"2B" + bytes([s.version, tb]) + s.sn.to_bytes(2, "big") + tlv + (fb if s.payload is not None else b"")
+            if sb != want:
+                ctx.fail("history-hstrp-bytes", si, "the kept HSTRP wrapper serialises differently from the packet written out by hand for its current fields", expected=want.hex(), actual=sb.hex())
+            if s.options is not None:
+                ln, ob = call(len, s.options), call(s.options.as_bytes)
+                if ln != len(tlv) or ob != tlv:
+                    ctx.fail("hstrp-options-len", si, "len(options) / options.as_bytes() differ from the option chain written out by hand", expected=[len(tlv), tlv.hex()], actual=[repr(ln), repr(ob) if isinstance(ob, Exc) else ob.hex()])
+            if deep and consistent(t, len(ol), s.payload is not None):
+                s2 = call(L.hstrp.HSTRP.from_bytes, sb)
+                if isinstance(s2, Exc) or s2 is None:
+                    ctx.fail("parse-raises", si, f"HSTRP.from_bytes of the serialisation gave {s2!r}", actual=repr(s2))
+                else:
+                    sb2 = call(s2.as_bytes)
+                    if isinstance(sb2, Exc) or sb2 != sb:
+                        ctx.fail("roundtrip-bytes", si, "HSTRP parse then serialise does not reproduce the bytes", expected=sb.hex(), actual=repr(sb2) if isinstance(sb2, Exc) else sb2.hex())
+                    f1 = safe(lambda: hstrp_fields(s)), safe(lambda: hstrp_fields(s2))
+                    if f1[0] != f1[1]:
+                        ctx.fail("roundtrip-fields", si, "HSTRP parsed fields differ", expected=f1[0], actual=f1[1])
+            if pairs is not None:
+                pairs.append((f"hstrp.mk {s.version} {tb} {s.sn} {opts_s(s.options)} {tup if s.payload is not None else 'NONE'}", hx(sb)))
+    return len(ctx.failures) == n0
+
+
+MUTATING = ("set", "ip-set", "gps-set", "dict-set", "dict-del")
+
+
+def start_state(tuple0, origin):
+    """the object a history starts from: built from the field tuple, or parsed from that PDU's serialisation"""
+    p = build_from_tuple(tuple0)
+    if origin == "parsed":
+        p = L.hdap.HDAP.from_bytes(p.as_bytes())
+    st = State(p)
+    st.own_gps = isinstance(p, L.lp.LocationProtocol) and (origin == "parsed" and p.specific_service == L.lp.LocationProtocolSpecificService.StandardReport or len(tuple0.split(" ")) > 5)
+    return st
+
+
+def run_history(ctx, rng, tuple0, origin, pairs, scripted):
+    """one history; returns the final state (or None when it was cut short by a failure)"""
+    st = start_state(tuple0, origin)
+    svc = tuple0.split(" ")[0]
+    steps = []
+    inp0 = {"fields0": tuple0, "origin": origin, "history": steps}
+    n = rng.choice([3, 3, 4, 5, 6, 8, 10])
+    ctx.count("hist:" + svc + ":" + origin)
+    if not verify_state(ctx, st, dict(inp0, history=[]), pairs, deep=False):
+        return None
+    for i in range(n):
+        force = None
+        if scripted:  # the canonical pattern first: observe, change a field, observe; then free
+            force = ("observe", "mutate", "observe")[i] if i < 3 else None
+        step = next_step(rng, st, force)
+        before = call(st.p.as_bytes)
+        r = call(apply_step, st, step)
+        steps.append(step)
+        ctx.count("hist-step:" + step["op"])
+        if isinstance(r, Exc):
+            ctx.fail("history-step-raises", dict(inp0, history=list(steps)), f"step {json.dumps(step)} on an in-range object raised {r}", actual=repr(r))
+            return None
+        if step["op"] in MUTATING:
+            after = call(st.p.as_bytes)
+            if not isinstance(before, Exc) and not isinstance(after, Exc):
+                ctx.count("hist:mutation-size-" + ("changed" if len(before) != len(after) else "kept"))
+        if not verify_state(ctx, st, dict(inp0, history=list(steps)), pairs, deep=(i == n - 1 or i % 3 == 2)):
+            return None
+    ctx.case(("history", tuple0, origin, json.dumps(steps, sort_keys=True)))
+    return st
+
+
+def run_histories(ctx, rng, pairs, held):
+    gens = [("RRS", gen_rrs), ("LP", gen_lp), ("TMP", gen_tmp), ("RCP", gen_rcp)]
+    n = ctx.budget(250, 2500)
+    finished = []
+    for i in range(n):
+        for name, g in gens + [("TMP", gen_tmp)]:  # TMP twice: most variable-length fields
+            c = g(rng)
+            t0 = safe(c.expected)
+            if t0.startswith("ERR"):
+                continue
+            st = call(run_history, ctx, rng, t0, "parsed" if i % 3 == 2 else "built", pairs, i % 2 == 0)
+            if isinstance(st, Exc):
+                ctx.fail("history-step-raises", {"fields0": t0, "service": name}, f"history on an in-range PDU raised {st}", actual=repr(st))
+            elif st is not None and len(finished) < 300:
+                b = call(st.p.as_bytes)
+                if not isinstance(b, Exc):
+                    finished.append((st, b, call(st.h.as_bytes) if st.h is not None else None, call(st.s.as_bytes) if st.s is not None else None, t0))
+        if i % 100 == 99:
+            verify_held(ctx, held)
+    # the objects the histories left behind must not have been changed by the later histories on OTHER objects
+    for st, b, hb, sb, t0 in finished:
+        ctx.count("held:history-object")
+        now = (call(st.p.as_bytes), call(st.h.as_bytes) if st.h is not None else None, call(st.s.as_bytes) if st.s is not None else None)
+        if now != (b, hb, sb):
+            ctx.fail("held-object-changed", {"fields0": t0, "fields": safe(pdu_tuple, st.p), "service": t0.split(" ")[0]},
+                     "an object that was not touched any more serialises differently after other objects were used",
+                     expected=[b.hex(), repr(hb), repr(sb)], actual=[repr(x) for x in now])
+    verify_held(ctx, held)
+
+
+def verify_held(ctx, held):
+    """objects built earlier and kept alive still serialise to the bytes recorded then (no state shared between objects)"""
+    for kind, p, b, inp in held:
+        ctx.count("held:re-verified")
+        now = call(p.as_bytes)
+        ln = call(len, p)
+        if now != b or ln != len(b):
+            ctx.fail("held-object-changed", inp, "a PDU kept alive serialises differently / reports another length after other PDUs were built and used",
+                     expected=[b.hex(), len(b)], actual=[repr(now) if isinstance(now, Exc) else now.hex(), repr(ln)])
 
 
 # ------------------------------------------------------------------------------------------------
@@ -914,29 +1882,47 @@ def run(ctx):
     for kind, p in regression_pdus():
         one_pdu(ctx, rng, p, kind, pairs, sample=kind.endswith("request"))
 
+    # -------- the special-token dictionary (every token x position x field, text as str and as octets)
+    held = []  # objects kept alive with the bytes they serialised to: re-verified after everything else ran
+    for kind, c in token_cases(rng):
+        p = build_case(ctx, c)
+        if p is not None:
+            ctx.count("token:" + kind.split(":")[1])
+            b = one_pdu(ctx, rng, p, kind, pairs, case=c)
+            if b is not None and len(held) < 400 and rng.random() < 0.2:
+                held.append((kind, p, b, input_of(p, case=c)))
     # -------- generated PDUs
     n = ctx.budget(2500, 25000)
     gens = [("RRS", gen_rrs), ("LP", gen_lp), ("TMP", gen_tmp), ("RCP", gen_rcp)]
     for i in range(n):
         for name, g in gens:
-            p = call(g, rng)
-            if isinstance(p, Exc):
-                ctx.fail("construct-raises", {"service": name}, f"constructing an in-range {name} PDU raised {p}", actual=repr(p))
+            c = g(rng)
+            p = build_case(ctx, c)
+            if p is None:
                 continue
-            one_pdu(ctx, rng, p, name, pairs, sample=i == 3)
+            b = one_pdu(ctx, rng, p, name, pairs, sample=i == 3, case=c)
+            if b is not None and i % 40 == 0 and len(held) < 400:
+                held.append((name, p, b, input_of(p, case=c)))
         if pairs is not None and len(pairs) > 20000:
             ctx.correspond("pdu build/parse (alone, HRNP, HSTRP)", pairs)
             pairs = []
     # big payloads (length field beyond one octet, up to the 16-bit limit)
     for i in range(ctx.budget(6, 60)):
-        p = call(gen_tmp, rng, True)
-        if not isinstance(p, Exc):
-            one_pdu(ctx, rng, p, "TMP-big", pairs)
+        c = gen_tmp(rng, True)
+        p = build_case(ctx, c)
+        if p is not None:
+            one_pdu(ctx, rng, p, "TMP-big", pairs, case=c)
     # -------- known finding: speeds that do not fit (kept separate so that the fitting stream stays clean)
     for i in range(ctx.budget(40, 400)):
-        p = call(gen_lp, rng, "over")
-        if not isinstance(p, Exc):
-            one_pdu(ctx, rng, p, "LP-speed-over", pairs, nest=i % 4 == 0)
+        c = gen_lp(rng, "over")
+        p = build_case(ctx, c)
+        if p is not None:
+            one_pdu(ctx, rng, p, "LP-speed-over", pairs, nest=i % 4 == 0, case=c)
+    # -------- object histories: one object observed, wrapped, changed, observed again
+    run_histories(ctx, rng, pairs, held)
+    if pairs is not None and len(pairs) > 20000:
+        ctx.correspond("pdu build/parse (alone, HRNP, HSTRP)", pairs)
+        pairs = []
     # -------- HRNP without data, HSTRP without payload
     H, S = L.hrnp, L.hstrp
     for i in range(ctx.budget(60, 600)):
@@ -974,23 +1960,20 @@ def run(ctx):
 
     # -------- parsers on mutated input (correspondence only: error kinds, fields, re-serialisation)
     if pairs is not None:
-        base = []
-        for name, g in gens * 3:
-            p = call(g, rng)
-            if isinstance(p, Exc):
-                continue
-            b = call(p.as_bytes)
-            if not isinstance(b, Exc):
-                base.append((name, p, b))
+        def fresh_base():
+            out = []
+            for name, g in gens * 3:
+                p = call(g(rng).build)
+                b = call(p.as_bytes) if not isinstance(p, Exc) else p
+                if not isinstance(b, Exc):
+                    out.append((name, p, b))
+            return out
+
+        base = fresh_base()
         m = ctx.budget(4000, 30000)
         for i in range(m):
             if i % 50 == 0:
-                base = []
-                for name, g in gens * 3:
-                    p = call(g, rng)
-                    b = call(p.as_bytes) if not isinstance(p, Exc) else p
-                    if not isinstance(b, Exc):
-                        base.append((name, p, b))
+                base = fresh_base()
             name, p, b = rng.choice(base)
             is_rep = name == "LP" and b[1:3] == b"\xa0\x02"
             layer = rng.choice(["hdap", "hdap", "hrnp", "hstrp", "opts"])
